@@ -71,7 +71,23 @@ POOLSETS: dict[str, dict[str, list]] = {
     },
 }
 
+RICH = {
+    "r_s": ["", "yes", "null", "~", "1e3", "0x1F", "2001-01-01", "it's \"q\" \\ back", "line1\nline2\ttab\r", "\x00nul\x01\x7f",
+            "\x85\u2028\ufeff", "\U0001F600 e\u0301", "x" * 300, "- a: b #c", "{[,&*!|>%@`]}", " lead", "trail ", "None", "true", "1"],
+    "r_i": [0, 1, -1, 2 ** 63 - 1, -2 ** 63, 2 ** 31, 255, 10 ** 15],
+    "r_fl": [0.0, -0.0, 1.5, -2.25, 5e-324, 1e300, 1.0, 3.141592653589793, 1e-7],
+    "r_bo": [False, True],
+    "r_os": [None, "", "None", "x"],
+    "r_e": [Color.RED, Color.GREEN],
+    "r_pth": [Path("a/b"), Path("/abs/p.txt"), Path("x")],
+    "r_lit": ["a", "b"],
+    "r_tup": [(), (1,), (0, -5, 2 ** 40)],
+    "r_ftup": [("", 0), ("a", 1), ("\u00e9", -7)],
+}
+
 SEPY = "):y=<class 'str'>("
+for _ps in POOLSETS.values():
+    _ps.update(RICH)
 for _ps in POOLSETS.values():
     _ps["sepx"] = ["1", "1" + SEPY + "2", "q"]
     _ps["sepy"] = ["3", "2" + SEPY + "3", "q"]
@@ -103,7 +119,8 @@ def value(poolset: str, pool: str, atom: int, variant: int = 0):
 def origins():
     """Origin atoms -> concrete origins of every kind (fresh objects on each call)."""
     from pyoak.origin import (NO_ORIGIN, CodeOrigin, GeneratedCodeOrigin, MemoryTextSource,
-                              MultiOrigin, XMLFileOrigin, XMLPath, get_code_range, FileSource)
+                              MultiOrigin, XMLFileOrigin, XMLPath, get_code_range, FileSource, Origin,
+                              NO_POSITION, NO_SOURCE, EntireSourcePosition)
 
     src = MemoryTextSource("abcdefgh", source_uri="mem1")
     src2 = MemoryTextSource("zzzz", source_uri="mem2")
@@ -117,4 +134,7 @@ def origins():
         MultiOrigin([o1, CodeOrigin(src2, get_code_range(0, 1, 0, 1, 1, 1))]),
         XMLFileOrigin(FileSource(Path("dir/f.xml")), XMLPath("/a/b")),
         CodeOrigin(src2, get_code_range(0, 1, 0, 3, 1, 3)),
+        Origin(src, NO_POSITION),
+        Origin(NO_SOURCE, EntireSourcePosition()),
+        MultiOrigin([XMLFileOrigin(FileSource(Path("dir/f.xml")), XMLPath("/a/c")), o2]),
     ]
